@@ -35,7 +35,7 @@ var swallowExceptions = map[string]string{}
 func ruleSwallow(c *Ctx, rule string, fns []*ssa.Function) {
 	for _, fn := range fns {
 		ei := errorResultIndex(fn.Signature)
-		if ei < 0 {
+		if ei < 0 && !(fn.Pkg != nil && fn.Pkg.Pkg.Name() == "boltz" && testsAnError(fn) && recordsToHolder(fn)) {
 			continue
 		}
 		c.Analysed(FnName(fn))
@@ -45,7 +45,7 @@ func ruleSwallow(c *Ctx, rule string, fns []*ssa.Function) {
 		bad := 0
 		for _, r := range returnsOf(fn) {
 			nret++
-			if len(r.Results) <= ei {
+			if ei < 0 || len(r.Results) <= ei {
 				continue
 			}
 			v := r.Results[ei]
@@ -79,8 +79,10 @@ func ruleSwallow(c *Ctx, rule string, fns []*ssa.Function) {
 			c.Bad(rule, name, c.P.Pos(r.Pos()),
 				fmt.Sprintf("returns a nil error on a path where %s is known to be non-nil (facts: %s)", strings.Join(culprit, ", "), fi.Describe(r.Block())))
 		}
-		// tested but ignored: an error whose only use is the nil test, and on whose non-nil side a
-		// return that does not report failure is reachable (if err := f(); err != nil { break } ... return other)
+		// observed but lost: for an error value with a nil test, no path may lead from the non-nil side of
+		// the test to a return that does not report a failure WITHOUT touching the error on the way
+		// (returning it, wrapping it, recording it, logging it, passing it to a predicate).  This covers
+		// `if err != nil { break }` as well as `if err != nil { if gone { continue } ; return err }`.
 		for _, b := range fn.Blocks {
 			for _, in := range b.Instrs {
 				v, isVal := in.(ssa.Value)
@@ -93,23 +95,47 @@ func ruleSwallow(c *Ctx, rule string, fns []*ssa.Function) {
 					continue
 				}
 				var tests []*ssa.BinOp
-				onlyTests := true
-				for _, r := range *v.Referrers() {
-					switch x := r.(type) {
-					case *ssa.DebugRef:
-					case *ssa.BinOp:
-						if (x.Op == token.EQL || x.Op == token.NEQ) && (isNilConst(x.X) || isNilConst(x.Y)) {
-							tests = append(tests, x)
-						} else {
-							onlyTests = false
+				uses := map[ssa.Instruction]bool{}
+				var collect func(x ssa.Value, depth int)
+				collect = func(x ssa.Value, depth int) {
+					if depth > 3 {
+						return
+					}
+					for _, r := range *x.Referrers() {
+						switch y := r.(type) {
+						case *ssa.DebugRef:
+						case *ssa.BinOp:
+							if (y.Op == token.EQL || y.Op == token.NEQ) && (isNilConst(y.X) || isNilConst(y.Y)) {
+								if x == v {
+									tests = append(tests, y)
+								}
+							} else {
+								uses[y] = true
+							}
+						case *ssa.Phi:
+							// the value travels on (result slot, merged error variable): its uses are uses
+							collect(y, depth+1)
+							uses[y] = false
+						case *ssa.Store:
+							if al, isAl := y.Addr.(*ssa.Alloc); isAl {
+								// spilled local: loads of it are uses
+								for _, ar := range *al.Referrers() {
+									if ld, isLd := ar.(*ssa.UnOp); isLd {
+										collect(ld, depth+1)
+									}
+								}
+							}
+							uses[y] = true
+						default:
+							uses[r] = true
 						}
-					default:
-						onlyTests = false
 					}
 				}
-				if !onlyTests || len(tests) == 0 {
+				collect(v, 0)
+				if len(tests) == 0 {
 					continue
 				}
+				isUse := func(x ssa.Instruction) bool { return uses[x] }
 				for _, t := range tests {
 					for _, r := range *t.Referrers() {
 						iff, isIf := r.(*ssa.If)
@@ -120,13 +146,17 @@ func ruleSwallow(c *Ctx, rule string, fns []*ssa.Function) {
 						if t.Op == token.EQL {
 							succ = iff.Block().Succs[1]
 						}
-						if !edgeLeadsOnlyToFailure(fi, iff.Block(), succ, ei) {
+						ps := &pathSearch{fn: fn, fi: fi, start: succ, startKnow: stepKnow(fi, iff.Block(), succ, knowMap{}), stop: isUse}
+						// a function without an error result reports through an error holder / sink: every
+						// return is an "unreported" end unless the error was handed somewhere before it
+						ps.atReturn = func(ret *ssa.Return, k knowMap) bool { return ei < 0 || !returnIsFailure(fi, ret, ei, k) }
+						if ps.run() {
 							if why, ok := swallowExceptions[name]; ok {
 								c.OK(rule, name, c.P.Pos(t.Pos()), "tabled exception: "+why)
 								continue
 							}
 							bad++
-							c.Bad(rule, name+": "+describeValue(v), c.P.Pos(t.Pos()), "this error is only tested for nil and its value is never used: on the non-nil side a return that does not report a failure is reachable, so the failure is lost")
+							c.Bad(rule, name+": "+describeValue(v), c.P.Pos(t.Pos()), "on the side where this error is non-nil a return that does not report a failure (at "+c.P.Pos(ps.Found.Pos())+") is reachable without the error being returned, wrapped, recorded or even looked at: the failure is lost on that path")
 						}
 					}
 				}
@@ -136,6 +166,37 @@ func ruleSwallow(c *Ctx, rule string, fns []*ssa.Function) {
 			c.OK(rule, name, c.P.Pos(fn.Pos()), fmt.Sprintf("%d return(s): none returns nil while an error value is known non-nil", nret))
 		}
 	}
+}
+
+// testsAnError: the function compares an error-typed call result with nil.
+func testsAnError(fn *ssa.Function) bool {
+	for _, b := range fn.Blocks {
+		for _, in := range b.Instrs {
+			bo, ok := in.(*ssa.BinOp)
+			if !ok || (bo.Op != token.EQL && bo.Op != token.NEQ) {
+				continue
+			}
+			if (isNilConst(bo.X) && isErrorType(bo.Y.Type())) || (isNilConst(bo.Y) && isErrorType(bo.X.Type())) {
+				return true
+			}
+		}
+	}
+	return false
+}
+
+// recordsToHolder: the function reports failures through an error holder (a call of a SetError method);
+// such a function's contract is "every failure reaches the holder", which is what gives its plain
+// returns the meaning "nothing failed".
+func recordsToHolder(fn *ssa.Function) bool {
+	for _, ci := range callsIn(fn) {
+		if ci.Common().IsInvoke() && ci.Common().Method.Name() == "SetError" {
+			return true
+		}
+		if cal, _ := calleeOf(ci.Common()); cal != nil && cal.Name() == "SetError" {
+			return true
+		}
+	}
+	return false
 }
 
 func describeValue(v ssa.Value) string {
